@@ -160,6 +160,15 @@ def live_in(tree, pool):
     return shape() == want
 
 
+def fresh_kind(k):
+    """the kind a built node gets: an own str object per node.  CPython shares one-character strings, so the one-letter kinds
+    of the generators become two characters long ("a" -> "a_"); equal kinds are then equal but not identical objects"""
+    k = k or "child"
+    if len(k) == 1:
+        k = k + "_"
+    return "".join(list(k))
+
+
 def build(spec, pool, *, typed=False, kinds=None, tree=None):
     """Build a real tree from spec [(label, [children])].  A label is a pool index, or a
     tuple (pool index, kind) for typed trees, or a dict with keys a, k, did.  (Every LIVED_IN-th tree is a lived-in one.)"""
@@ -197,7 +206,8 @@ def _build(spec, pool, *, typed=False, kinds=None, tree=None):
             if nid is not None:
                 kw["node_id"] = nid
             if typed:
-                n = parent.add(pool.objs[a], kind=k or "child", **kw)
+                # every node gets its OWN str object as kind (equal kinds are not identical objects, as after a load)
+                n = parent.add(pool.objs[a], kind=fresh_kind(k), **kw)
             else:
                 n = parent.add(pool.objs[a], **kw)
             add(n, kids)
@@ -228,7 +238,7 @@ def build_levelorder(spec, pool, *, typed=False):
             if nid is not None:
                 kw["node_id"] = nid
             if typed:
-                kw["kind"] = k or "child"
+                kw["kind"] = fresh_kind(k)
             n = parent.add(pool.objs[a], **kw)
             made.append((n, kids))
         queue.extend(reversed(made))
